@@ -79,6 +79,8 @@ class C03(Prop):
                     # element types of the user's arrays (operand and / or map); a refusal is accepted
                     DTS = (("uint8", "int64"), ("int8", "int32"), ("uint64", "uint8"), ("float64", "int64"), ("uint8", "uint8"), ("int32", "float64"))
                     yield {"k": "tf", "kind": "list", "m": m, "ins": allp, "dt": list(DTS[(i // 11) % 6]), "mdt": (i // 11) % 3 == 0, "pkg": "py"}
+                if i % 17 == 0:
+                    yield {"k": "tf", "kind": "list", "m": m, "ins": allp[::2], "mro": True, "pkg": "py"}
                 if i % 13 == 0:
                     yield {"k": "tf", "kind": "livemap", "m": m, "ins": allp[(i // 13) % 3::3],
                            "how": ("uint8", "int32", "float64", "fortran", "step", "plain")[(i // 13) % 6], "pkg": "py"}
@@ -250,6 +252,9 @@ class C03(Prop):
                 rec["m"] = be.p_list(M)
             elif mlay:
                 M = be.relayout(M, mlay)
+            if scn.get("mro"):
+                be.freeze(M)                 # the map argument is only read
+                rec["mro"] = True
             if lay or mlay:
                 rec["layout"] = [lay or "", mlay or ""]
             n = scn["n"] if "n" in scn else len(ins[0]) - 1
